@@ -320,8 +320,59 @@ func allFinite(x, y ir) bool {
 
 func init() { Table["C06"] = C06 }
 
+// c06grid enumerates (not samples) every pair of intervals whose bounds come
+// from a small set of machine-word corner values (and nil), for the
+// arithmetic operators: word-sized fast paths in the implementation fail
+// exactly at such corners (e.g. -2^63 / -1), which random bounds hit with
+// negligible probability.
+func c06grid(rc *vk.Rec) {
+	phase := "c06grid"
+	var vals []*big.Int
+	addv := func(v *big.Int) { vals = append(vals, v, new(big.Int).Neg(v)) }
+	vals = append(vals, big.NewInt(0))
+	for _, v := range []int64{1, 2, 5} {
+		addv(big.NewInt(v))
+	}
+	ks := []int{31, 63, 64}
+	if rc.Thorough() {
+		ks = []int{7, 8, 15, 16, 31, 32, 62, 63, 64, 65, 127, 128}
+	}
+	for _, k := range ks {
+		p := pow2(k)
+		addv(p)
+		addv(new(big.Int).Sub(p, big.NewInt(1)))
+		addv(new(big.Int).Add(p, big.NewInt(1)))
+	}
+	var ivs []ir
+	for _, lo := range vals {
+		ivs = append(ivs, ir{lo, nil}, ir{nil, lo})
+		for _, hi := range vals {
+			if lo.Cmp(hi) <= 0 {
+				ivs = append(ivs, ir{lo, hi})
+			}
+		}
+	}
+	ivs = append(ivs, ir{nil, nil})
+	ops := []string{"add", "sub", "mul", "quo", "and", "or"}
+	idx := int64(0)
+	for _, x := range ivs {
+		for _, y := range ivs {
+			idx++
+			if rc.SkipCase(phase, idx) || (rc.Only < 0 && int(idx)%rc.NShards != rc.Shard) {
+				continue
+			}
+			r := rc.RNG(phase, idx)
+			for _, op := range ops {
+				c06one(rc, r, phase, idx, op, c06clone(x), c06clone(y))
+			}
+		}
+	}
+	rc.Count("grid_interval_pairs", idx/int64(rc.NShards))
+}
+
 // C06 runs the interval monitor.
 func C06(rc *vk.Rec) {
+	c06grid(rc)
 	n := rc.N(24000, 2400000)
 	phase := "c06"
 	for idx := int64(0); idx < int64(n); idx++ {
@@ -359,7 +410,19 @@ func C06(rc *vk.Rec) {
 
 func c06one(rc *vk.Rec, r *rand.Rand, phase string, idx int64, op string, x, y ir) {
 	x0, y0 := c06clone(x), c06clone(y)
-	z, ok := c06apply(op, x, y)
+	var z ir
+	var ok bool
+	if pv := func() (pv interface{}) {
+		defer func() { pv = recover() }()
+		z, ok = c06apply(op, x, y)
+		return nil
+	}(); pv != nil {
+		// no interval at all for operands the method's documentation accepts
+		rc.Eval(1)
+		rc.ViolateCase("interval:"+op+":panic:"+vk.PanicSig(pv), fmt.Sprintf("panic: %s %s %s: %v", x0.String(), op, y0.String(), pv),
+			phase, idx, map[string]interface{}{"case": c06case{op, x0.String(), y0.String(), "", false}})
+		return
+	}
 	rc.Eval(1)
 	desc := c06case{op, x.String(), y.String(), z.String(), ok}
 	bad := func(kind, msg string) {
